@@ -36,3 +36,22 @@ def verbatim(spec):
             'text': 'a statement-free document that compiles renders to itself; tokens tile the input',
             'witness': {'inputs': {'body': r['violation']['body']}, 'detail': r['violation']['what']}})
     return out
+
+
+def interp(spec):
+    t0 = time.time()
+    maxlen = 6 if spec.get('tier') != 'thorough' else 7
+    r = _run('interp.py', [REPO, maxlen, min(14, os.cpu_count() or 4)])
+    out = {'unit': 'B-INTERP', 'obligations': [], 'wall': time.time() - t0,
+           'bounded': [{'id': 'B-INTERP', 'function': 'compiler.py::Interpolator.__call__',
+                        'bound': r['bound'], 'cases': r['cases'], 'distinct': r['distinct']}]}
+    if r.get('violation'):
+        v = r['violation']
+        out['obligations'].append({
+            'name': 'B-INTERP', 'expect': 'valid', 'status': 'failed', 'backend': 'bounded',
+            'time': 0.0, 'okind': 'bounded', 'tried': 'enumeration', 'confirmed': True,
+            'text': '${expr} extends to its own closing brace, $$ is a literal $, everything else '
+                    'is copied (independent left-to-right specification)',
+            'witness': {'inputs': {'text_template': v['template'], 'binding': 'a=7'},
+                        'detail': 'expected %r, observed %r' % (v['expected'], v['observed'])}})
+    return out
